@@ -24,4 +24,13 @@ theorem uriStrEq_iff (u v : Uri) : uriStrEq u v = true ↔ u = v := by
   simp only [uriStrEq, beq_iff_eq]
   exact ⟨toString_inj u v, fun h => h ▸ rfl⟩
 
+set_option linter.unusedSimpArgs false in
+/-- transitivity of `==` (512 class combinations; the proof of `C43.eq_transitive`) -/
+theorem pyEq_trans (a b c : Obj) (hab : IdConsistent a b) (hbc : IdConsistent b c)
+    (h1 : pyEq .fixed a b = true) (h2 : pyEq .fixed b c = true) : pyEq .fixed a c = true := by
+  cases a <;> cases b <;>
+    simp_all [pyEq, eqMethod, objectEq, R.ofBool, uriStrEq, Obj.id, IdConsistent] <;>
+    cases c <;> (try simp_all [pyEq, eqMethod, objectEq, R.ofBool, uriStrEq, Obj.id, IdConsistent]) <;>
+    (try grind)
+
 end Tahoe.Identity
